@@ -38,9 +38,6 @@ impl<'a> PrettyPrinter<'a> {
         ctx: Context,
         node: &'a SyntaxNode,
     ) -> Option<ArenaDoc<'a>> {
-        if ctx.break_suppressed {
-            return None;
-        }
         let mut dot_num = 0;
         let mut call_num = 0;
         let mut has_comment = false;
@@ -55,12 +52,16 @@ impl<'a> PrettyPrinter<'a> {
                 has_comment = true;
             }
         }
+        // The plain layout cannot carry comments: they would be lost.
+        if ctx.break_suppressed && !has_comment {
+            return None;
+        }
         if dot_num > 1 && call_num == 1 && !has_comment {
             if let Some(res) = self.try_convert_dot_chain_plain(ctx, chain) {
                 return Some(res);
             }
         }
-        if ctx.mode.is_markup() && dot_num > 1 && call_num > 0 {
+        if ctx.mode.is_markup() && (has_comment || dot_num > 1 && call_num > 0) {
             return Some(
                 self.parenthesize_if_necessary(ctx, |ctx| self.convert_dot_chain(ctx, node)),
             );
